@@ -245,6 +245,51 @@ class Exec:
         self.ctx = ctx
         self.mon = mon
         self.pool = []
+        self.in_run = False
+
+    # -- spec encoding (the reverse of dec: used to put calls a driver makes directly into the transcript) ------
+    def enc(self, x, depth=0):
+        L = self.L
+        if isinstance(x, (L.AnsiString, L.AnsiStr)):
+            for i, p in enumerate(self.pool):
+                if p is x:
+                    return {'$': i}
+            raise ValueError('value outside the pool')
+        if x is None or isinstance(x, (str, int, float, bool)):
+            return x
+        if isinstance(x, L.AnsiSetting):
+            return {'S': str(x)}
+        if isinstance(x, L.AnsiFormat):
+            return {'F': x.name}
+        if depth < 5:
+            if isinstance(x, tuple):
+                return {'T': [self.enc(e, depth + 1) for e in x]}
+            if isinstance(x, list):
+                return [self.enc(e, depth + 1) for e in x]
+        if isinstance(x, slice):
+            return {'sl': [x.start, x.stop, x.step]}
+        raise ValueError('not encodable')
+
+    def record_direct(self, clsname, name, recv, args, kwargs):
+        """transcript entry for an outermost library call that did not come through run()"""
+        if self.in_run or self.ctx is None or self.ctx.history is None:
+            return
+        try:
+            if name in ('__init__', '__new__'):
+                op = {'m': 'new', 'cls': clsname, 'a': [self.enc(a) for a in args]}
+            elif recv is None:
+                op = {'m': name, 'cls': clsname, 'a': [self.enc(a) for a in args]}
+            else:
+                op = {'m': name, 'r': self.enc(recv)['$'], 'a': [self.enc(a) for a in args]}
+            if kwargs:
+                op['k'] = {k: self.enc(v) for k, v in kwargs.items()}
+        except Exception:
+            from .monitor import short
+            op = {'m': name, 'cls': clsname, 'unrecorded': 'receiver or argument built by the driver outside the pool',
+                  'recv': short(recv) if recv is not None else None, 'a': [short(a) for a in args],
+                  'k': {k: short(v) for k, v in kwargs.items()}}
+        op['direct'] = True
+        self.ctx.history.append(op)
 
     # -- spec decoding ----------------------------------------------------
     def dec(self, x):
@@ -300,6 +345,7 @@ class Exec:
         a = [self.dec(x) for x in op.get('a', [])]
         k = {kk: self.dec(v) for kk, v in op.get('k', {}).items()}
         res = None
+        self.in_run = True
         try:
             if m == 'new':
                 cls = getattr(L, op.get('cls', 'AnsiString'))
@@ -337,6 +383,8 @@ class Exec:
         except (Exception, StepBudgetExceeded) as e:  # the monitors have already seen it
             op['raised'] = type(e).__name__
             return None, e
+        finally:
+            self.in_run = False
         self.pool_result(res, op)
         return res, None
 
